@@ -15,7 +15,7 @@
    (so the drift is the <= 1e-9 the snap condition itself states); that the curve of a snapped path stays
    within 1e-8 of the original is judged on near-closing inputs on every run. *)
 From Coq Require Import ZArith Reals Lra List Bool Ascii String.
-From Pico Require Import Num PyStr G_geom G_meta G_types Walk PathSem E3_walk E3_rewrites E3_shorthand E3_forms E3_chain E3_snap G_transform E1_affine G_shapes BasicShapes E3_shapes.
+From Pico Require Import Num PyStr G_geom G_meta G_types Walk PathSem E3_walk E3_rewrites E3_shorthand E3_forms E3_chain E3_snap G_transform E1_affine G_shapes BasicShapes E3_shapes E3_letters.
 Import ListNotations.
 Local Open Scope char_scope.
 
@@ -62,6 +62,13 @@ Proof. exact (explicit_lines_form p). Qed.
 Theorem C09_no_ST_after_expand_shorthand (p : pathR) :
   Forall (fun c => In (fst c) letters) p -> Forall not_st (expand_shorthand (N:=ROps) p).
 Proof. exact (expand_shorthand_form p). Qed.
+
+(* whatever of the twenty letters the source uses - arcs included - after the three rewrites in topicosvg's order only the
+   absolute letters M L C Q A Z are left (the path-data clause of C01) *)
+Theorem C09_converted_letters (p : pathR) :
+  Forall (fun c => In (fst c) letters) p ->
+  Forall (fun c => In (fst c) ["M";"L";"C";"Q";"Z";"A"]) (absolute (N:=ROps) (expand_shorthand (N:=ROps) (explicit_lines (N:=ROps) p))).
+Proof. exact (converted_letters p). Qed.
 
 (* the rewrites compose: the normal form handed to Skia (as_cmd_seq = arcs_to_cubics . absolute . expand_shorthand .
    explicit_lines) describes the same curve as a well-formed arc-free path and uses M L C Q Z only (arcs: C12) *)
@@ -183,7 +190,7 @@ Proof. repeat constructor; cbn; tauto. Qed.
 (* one traversal for the axioms of the whole property file *)
 Definition C09_all := (C09_walk_tracks_current_point, C09_explicit_lines, C09_expand_shorthand, C09_absolute,
   C09_absolute_moveto, C09_relative, C09_move, C09_no_lowercase_after_absolute, C09_no_HV_after_explicit_lines,
-  C09_no_ST_after_expand_shorthand, C09_as_cmd_seq, C09_snapped_segment_ends_on_start, C09_rewrite_snap_lands, C09_snap_changes_only_the_end_point, C09_rounding,
+  C09_no_ST_after_expand_shorthand, C09_converted_letters, C09_as_cmd_seq, C09_snapped_segment_ends_on_start, C09_rewrite_snap_lands, C09_snap_changes_only_the_end_point, C09_rounding,
   C09_builder_writes_its_letter, C09_line, C09_ellipse, C09_ellipse_halves, C09_circle, C09_rect_radii, C09_rect_sharp, C09_rect_rounded,
   C09_rect_corner, C09_polyline, C09_polygon).
 Print Assumptions C09_all.
